@@ -31,6 +31,7 @@ RULES = {
     "C11.REMOVE": "remove: key, state None and slab entry together iff present; returns presence",
     "C11.DONE": "member Ready => state None, slab.remove once, yields (Key(i), payload), scan stops, key removed before return",
     "C11.EMPTY": "is_empty first; Ready(None) exactly when empty",
+    "C11.CTOR": "with_capacity(c): slab, waker table, state table and recorded capacity all sized c, key set empty; new() = with_capacity(0)",
     "C11.VIEW": "observers and front-ends read the representation faithfully",
     "C11.POLL": "member polled only if Pending and armed; index from keys; finishing mark; stop after a yield",
 }
@@ -47,6 +48,7 @@ def run(ctx):
         grouplike.rule_reserve(ctx, M, gname, "C11.RESERVE")
         grouplike.rule_remove(ctx, M, gname, "C11.REMOVE")
         grouplike.rule_view(ctx, M, gname, "C11.VIEW")
+        grouplike.rule_ctor(ctx, M, gname, "C11.CTOR")
         u = grouplike.group_unit(M, gname)
         ctx.require(u is not None, "FutureGroup::poll_next_inner")
         grouplike.rule_empty(ctx, M, u, "C11.EMPTY")
